@@ -8,6 +8,7 @@ package fzf
 
 import (
 	"io"
+	"net"
 
 	"github.com/junegunn/fzf/src/algo"
 	"github.com/junegunn/fzf/src/tui"
@@ -234,4 +235,34 @@ func VerifReplacePlaceholder(template string, stripAnsi bool, delimiter Delimite
 		prompt:     prompt,
 		executor:   util.NewExecutor(withShell),
 	})
+}
+
+// ---- --listen server
+
+// VerifHandleHTTP runs the request handler of the --listen server on one
+// connection. It returns the reply, the action lists that reached the action
+// channel and the number of times the state (GET) handler was invoked.
+func VerifHandleHTTP(conn net.Conn, apiKey string, state string) (string, [][]VerifAction, int) {
+	ch := make(chan []*action, 16)
+	gets := 0
+	server := httpServer{
+		apiKey:        []byte(apiKey),
+		actionChannel: ch,
+		getHandler: func(getParams) string {
+			gets++
+			return state
+		},
+	}
+	reply := server.handleHttpRequest(conn)
+	close(ch)
+	var got [][]VerifAction
+	for actions := range ch {
+		got = append(got, verifActions(actions))
+	}
+	return reply, got, gets
+}
+
+func VerifParseListenAddress(s string) (string, int, bool, error) {
+	addr, err := parseListenAddress(s)
+	return addr.host, addr.port, addr.IsLocal(), err
 }
